@@ -50,19 +50,27 @@ func (eval Evaluator) Trace(ctIn *Ciphertext, logN int, opOut *Ciphertext) (err 
 
 	*opOut.MetaData = *ctIn.MetaData
 
-	gap := 1 << (params.LogN() - logN - 1)
+	// GaloisGen has order N/2 in the standard ring (the other half of the Galois
+	// group is reached with X -> X^{-1}) and order N in the conjugate invariant
+	// ring (where X -> X^{-1} is the identity).
+	last := params.LogN() - 1
+	if params.RingType() == ring.ConjugateInvariant {
+		last = params.LogN()
+	}
 
-	if logN == 0 {
+	// Number of automorphisms summed together
+	gap := 1
+	if logN < last {
+		gap = 1 << (last - logN)
+	}
+
+	if logN == 0 && params.RingType() == ring.Standard {
 		gap <<= 1
 	}
 
 	if gap > 1 {
 
 		ringQ := params.RingQ().AtLevel(level)
-
-		if ringQ.Type() == ring.ConjugateInvariant {
-			gap >>= 1 // We skip the last step that applies phi(5^{-1})
-		}
 
 		/* #nosec G115 -- gap cannot be negative */
 		NInv := new(big.Int).SetUint64(uint64(gap))
@@ -88,7 +96,7 @@ func (eval Evaluator) Trace(ctIn *Ciphertext, logN int, opOut *Ciphertext) (err 
 
 		buff.IsNTT = true
 
-		for i := logN; i < params.LogN()-1; i++ {
+		for i := logN; i < last; i++ {
 
 			if err = eval.Automorphism(opOut, params.GaloisElement(1<<i), buff); err != nil {
 				return err
@@ -129,20 +137,20 @@ func GaloisElementsForTrace(params ParameterProvider, logN int) (galEls []uint64
 
 	p := params.GetRLWEParameters()
 
+	// See Trace: GaloisGen has order N in the conjugate invariant ring,
+	// where X -> X^{-1} is the identity and hence not needed.
+	last := p.LogN() - 1
+	if p.RingType() == ring.ConjugateInvariant {
+		last = p.LogN()
+	}
+
 	galEls = []uint64{}
-	for i, j := logN, 0; i < p.LogN()-1; i, j = i+1, j+1 {
+	for i := logN; i < last; i++ {
 		galEls = append(galEls, p.GaloisElement(1<<i))
 	}
 
-	if logN == 0 {
-		switch p.RingType() {
-		case ring.Standard:
-			galEls = append(galEls, p.GaloisElementOrderTwoOrthogonalSubgroup())
-		case ring.ConjugateInvariant:
-			panic("cannot GaloisElementsForTrace: Galois element GaloisGen^-1 is undefined in ConjugateInvariant Ring")
-		default:
-			panic("cannot GaloisElementsForTrace: invalid ring type")
-		}
+	if logN == 0 && p.RingType() == ring.Standard {
+		galEls = append(galEls, p.GaloisElementOrderTwoOrthogonalSubgroup())
 	}
 
 	return
